@@ -37,7 +37,7 @@ extern int mpt_message_append(MPT_STRUCT(array) *arr, const MPT_STRUCT(message) 
 	/* trailing message parts */
 	cont = msg->cont;
 	clen = msg->clen;
-	while (--clen) {
+	while (clen--) {
 		const uint8_t *base;
 		base = cont->iov_base;
 		used = cont->iov_len;
